@@ -320,6 +320,29 @@ def realEnv : Env (List Nat) where
   valid := idValid
   zero := List.replicate idSize 0
 
+/-- the harness's case variants of an id: the bytes before the first NUL upper-cased / lower-cased, the rest untouched -/
+def flipUpper : List Nat → List Nat
+  | [] => []
+  | c :: cs => if c = 0 then c :: cs else toupper c :: flipUpper cs
+
+def flipLower : List Nat → List Nat
+  | [] => []
+  | c :: cs => if c = 0 then c :: cs else tolower c :: flipLower cs
+
+/-- op `lookupall`: SearchUserRaw of every non-empty slot's id as stored, upper-cased and lower-cased, in slot order. -/
+def lookupAll (s : St (List Nat)) : M (List (Nat × List Int)) :=
+  let rec go (ids : List (List Nat)) (k : Nat) : M (List (Nat × List Int)) :=
+    match ids with
+    | [] => pure []
+    | a :: rest =>
+      if realEnv.isEmpty a then go rest (k + 1) else do
+        let r1 ← searchUserRaw realEnv s a
+        let r2 ← searchUserRaw realEnv s (flipUpper a)
+        let r3 ← searchUserRaw realEnv s (flipLower a)
+        let tl ← go rest (k + 1)
+        pure ((k, [r1.1, r2.1, r3.1]) :: tl)
+  go s.userid 0
+
 /-- NewSHM's handshake: version first, then size. -/
 def handshake (ver size wantVer wantSize : Int) : String :=
   if ver ≠ wantVer then "errversion" else if size ≠ wantSize then "errsize" else "ok"
